@@ -214,13 +214,20 @@ JudgeLine(e, st) ==
         \* the sentence-level type is judged whenever a sentence comes back for a well-formed line, whatever else
         \* is wrong with the outcome
         mtAlways == IF obsAcc /\ ln.ok /\ ~checked /\ ~(mtOk \/ mtDev) THEN V("C19", "sentence message type") ELSE {}
+        \* an unfragmented sentence or first fragment that reports a payload other than the transmitted one (C07's
+        \* concern) and a type that is not the type of the payload it reports either
+        mtReported ==
+            IF obsAcc /\ ln.ok /\ o.class \in {"single", "open"} /\ s.data # o.data /\ s.data # << >>
+               /\ SentenceTypeIdeal(s.data) # -1 /\ s.mtype # SentenceTypeIdeal(s.data)
+               /\ ~("sentence_type_on_armored" \in Known /\ s.mtype = SentenceTypeAsBuilt(s.data))
+            THEN V("C19", "sentence message type is not the type of the payload the sentence reports") ELSE {}
     IN  IF unspec
         THEN \* never judged (DESIGN 5.3, 5.4) except for totality; the code's own reading is the reference
              [viol |-> (IF e.r = "panic" THEN V("C01", "panic: " \o e.pmsg) ELSE {}) \cup agreeViol \cup numViol,
               devs |-> {}, st |-> o.st,
               lost |-> ~((obsAcc /\ e.r = r0) \/ (~obsAcc /\ (r0 \in {"err_nmea", "err_checksum"} \/ needDecode))),
               class |-> o.class, unspec |-> TRUE]
-        ELSE [viol |-> classViol \cup agreeViol \cup mtAlways \cup (IF checked THEN fieldViol ELSE {}),
+        ELSE [viol |-> classViol \cup agreeViol \cup mtAlways \cup mtReported \cup (IF checked THEN fieldViol ELSE {}),
               devs |-> IF checked THEN fieldDevs ELSE {},
               \* a line the specification accepts but the code rejected with an error: by C17 a rejected
               \* line leaves no trace, so tracking continues from the unchanged state (if it did leave one,
@@ -383,6 +390,12 @@ JudgeCli(e, st) ==
         ELSE [viol |-> IF good THEN {} ELSE V("C20", describe) \cup also,
               st |-> o.st, lost |-> ~good, class |-> o.class, unspec |-> FALSE]
 
+\* C17 through the tool: the same line in a stream from which rejected / unfragmented lines were removed
+TwinCli(e) ==
+    IF ~Has(e, "twin") THEN {}
+    ELSE IF e.out = e.twin.out /\ e.err = e.twin.err /\ e.variant = e.twin.variant THEN {}
+    ELSE V(e.twinprop, "what the tool prints for this line changes when " \o e.twinwhy)
+
 JudgeCliEnd(e) ==
     (IF e.exit = 0 THEN {} ELSE V("C20", "exit status " \o ToString(e.exit) \o " after " \o ToString(e.consumed) \o " of " \o ToString(e.total) \o " lines"))
     \cup (IF e.ordered = 1 THEN {} ELSE V("C20", "records are not in input order"))
@@ -484,13 +497,13 @@ EvCli(e) ==
             IN  /\ ps' = IF resync THEN [q \in (DOMAIN ps) \cup {0} |-> IF q = 0 THEN j0.st ELSE ps[q]] ELSE ps
                 /\ lost' = IF resync THEN lost \ {0} ELSE lost
                 /\ UNCHANGED caphit
-                /\ AddViol(l, IF indep THEN j0.viol ELSE {}) /\ AddDevs({})
+                /\ AddViol(l, (IF indep THEN j0.viol ELSE {}) \cup TwinCli(e)) /\ AddDevs({})
                 /\ Bump(e, IF indep THEN j0.class ELSE "", FALSE, ~indep)
        ELSE LET j == JudgeCli(e, StateOf(0))
             IN  /\ ps' = [q \in (DOMAIN ps) \cup {0} |-> IF q = 0 THEN j.st ELSE ps[q]]
                 /\ lost' = IF j.lost THEN lost \cup {0} ELSE lost
                 /\ UNCHANGED caphit
-                /\ AddViol(l, j.viol) /\ AddDevs({}) /\ Bump(e, j.class, j.unspec, FALSE)
+                /\ AddViol(l, j.viol \cup TwinCli(e)) /\ AddDevs({}) /\ Bump(e, j.class, j.unspec, FALSE)
 
 EvCliEnd(e) ==
     /\ e.op = "cliend"
